@@ -1,13 +1,142 @@
-import Autog.Lemmas.Phase4Simple
-/-! # C16
-    VAlign/PackRight exact extents. -/
+import Autog.Lemmas.Layers
+import Autog.Model.Phase4
+/-! # C16 — VAlign centres and PackRight right-aligns every band with exact spacing
+
+    Theorems about the model functions `execVerticalAlign` and `execPackRight` (Autog/Model/Phase4.lean), which the
+    correspondence suites `T:phase4-valign` / `T:phase4-packright` compare with the real positioners on every traced run.
+    A band is a layer list (helper nodes included); `xsOf g l` / `widthsOf g l` are its left edges and widths in layer
+    order. All statements hold for every graph state with well-formed layer lists, every width list and every NodeSpacing
+    (signs matter only for "the leftmost node is at 0"). -/
 
 namespace Autog
+open Phase4Simple
 
-theorem C16_extent : type_of% @Phase4Simple.extent := @Phase4Simple.extent
+/-! ## VAlign -/
 
-theorem C16_valign_mid : type_of% @Phase4Simple.valign_mid := @Phase4Simple.valign_mid
+/-- read-back: the x coordinates VAlign leaves in a band are `valign ns maxW widths`, and widths are untouched -/
+theorem C16_valign_coordinates (ns : Rat) (g : G) (hwf : LayersWF g) (l : Layer) (hl : l ∈ g.layers.toList) :
+    xsOf (execVerticalAlign ns g) l = valign ns (maxLayerW ns g) (widthsOf g l) ∧
+    widthsOf (execVerticalAlign ns g) l = widthsOf g l := by
+  constructor
+  · have hplan : PlWF { g with layers := valignLayers ns g } (valignPlan ns g) :=
+      plwf_of_layers { g with layers := valignLayers ns g } g rfl hwf (fun l => valign ns (maxLayerW ns g) (widthsOf g l)) (fun l _ => by simp [valign, widthsOf])
+    exact placeAll_xs _ _ hplan (l.nodes, valign ns (maxLayerW ns g) (widthsOf g l)) (List.mem_map.2 ⟨l, hl, rfl⟩)
+  · unfold widthsOf
+    apply List.map_congr_left
+    intro n _
+    exact w_of_dropX (placeAll_dropX (valignPlan ns g) { g with layers := valignLayers ns g } n)
 
-theorem C16_packBack_right : type_of% @Phase4Simple.packBack_right := @Phase4Simple.packBack_right
+/-- consecutive nodes of a band are exactly `width + NodeSpacing` apart -/
+theorem C16_valign_spacing (ns : Rat) (g : G) (hwf : LayersWF g) (l : Layer) (hl : l ∈ g.layers.toList) :
+    Spaced ns (xsOf (execVerticalAlign ns g) l) (widthsOf (execVerticalAlign ns g) l) := by
+  obtain ⟨h1, h2⟩ := C16_valign_coordinates ns g hwf l hl
+  rw [h1, h2]; exact placeFrom_spaced _ _ _
+
+/-- the extent of a non-empty band is the sum of its widths plus NodeSpacing between consecutive nodes, and the
+    band is centred: left end + right end = maxW for every band -/
+theorem C16_valign_extent_and_centre (ns : Rat) (g : G) (hwf : LayersWF g) (l : Layer) (hl : l ∈ g.layers.toList)
+    (w : Rat) (ws : List Rat) (hws : widthsOf g l = w :: ws) :
+    ∃ x xs, xsOf (execVerticalAlign ns g) l = x :: xs ∧
+      lastRight (x :: xs) (w :: ws) - x = layerW ns (w :: ws) ∧
+      x + lastRight (x :: xs) (w :: ws) = maxLayerW ns g := by
+  obtain ⟨h1, _⟩ := C16_valign_coordinates ns g hwf l hl
+  rw [h1, hws]
+  refine ⟨(maxLayerW ns g - layerW ns (w :: ws)) / 2, placeFrom ((maxLayerW ns g - layerW ns (w :: ws)) / 2 + w + ns) ns ws, rfl, ?_, ?_⟩
+  · have := extent ((maxLayerW ns g - layerW ns (w :: ws)) / 2) ns w ws
+    simp only [placeFrom] at this; rw [this]; grind
+  · have := extent ((maxLayerW ns g - layerW ns (w :: ws)) / 2) ns w ws
+    simp only [placeFrom] at this; rw [this]; grind
+
+/-- no band starts left of 0, and a band of maximal width starts exactly at 0 -/
+theorem C16_valign_leftmost (ns : Rat) (g : G) (hwf : LayersWF g) (l : Layer) (hl : l ∈ g.layers.toList)
+    (w : Rat) (ws : List Rat) (hws : widthsOf g l = w :: ws) :
+    ∃ x xs, xsOf (execVerticalAlign ns g) l = x :: xs ∧ 0 ≤ x ∧
+      (layerW ns (w :: ws) = maxLayerW ns g → x = 0) := by
+  obtain ⟨h1, _⟩ := C16_valign_coordinates ns g hwf l hl
+  rw [h1, hws]
+  refine ⟨(maxLayerW ns g - layerW ns (w :: ws)) / 2, _, rfl, ?_, fun h => by rw [h]; grind⟩
+  have hle : layerW ns (w :: ws) ≤ maxLayerW ns g := by
+    unfold maxLayerW
+    apply le_foldl_maxRat
+    exact List.mem_map.2 ⟨l, hl, by rw [hws]⟩
+  exact valign_nonneg ns _ _ hle
+
+/-- some band does start at 0 when a band of non-negative width exists (the maximum is attained) -/
+theorem C16_valign_max_attained (ns : Rat) (g : G) :
+    maxLayerW ns g = 0 ∨ ∃ l ∈ g.layers.toList, layerW ns (widthsOf g l) = maxLayerW ns g := by
+  unfold maxLayerW
+  rcases foldl_maxRat_mem (g.layers.toList.map fun l => layerW ns (widthsOf g l)) 0 with h | h
+  · exact Or.inl h
+  · obtain ⟨l, hl, he⟩ := List.mem_map.1 h
+    exact Or.inr ⟨l, hl, he⟩
+
+/-! ## PackRight -/
+
+theorem packRightRaw_eq (ns : Rat) (g : G) (l : Layer) :
+    packRightRaw ns g l = placeFrom (0 - tot ns (widthsOf g l)) ns (widthsOf g l) := by
+  unfold packRightRaw; exact packRight_eq_placeFrom ns 0 _
+
+/-- read-back for PackRight (the layer heights it also updates do not touch nodes) -/
+theorem C16_packright_coordinates (ns : Rat) (g : G) (hwf : LayersWF g) (l : Layer) (hl : l ∈ g.layers.toList) :
+    xsOf (execPackRight ns g) l = (packRightRaw ns g l).map (· - packLeftBound ns g) ∧
+    widthsOf (execPackRight ns g) l = widthsOf g l := by
+  constructor
+  · have hplan : PlWF g (packRightPlan ns g) :=
+      plwf_of_layers g g rfl hwf (fun l => (packRightRaw ns g l).map (· - packLeftBound ns g))
+        (fun l _ => by simp [packRightRaw, packRight_eq_placeFrom, widthsOf])
+    exact placeAll_xs _ _ hplan (l.nodes, (packRightRaw ns g l).map (· - packLeftBound ns g)) (List.mem_map.2 ⟨l, hl, rfl⟩)
+  · unfold widthsOf
+    apply List.map_congr_left
+    intro n _
+    exact w_of_dropX (placeAll_dropX (packRightPlan ns g) g n)
+
+theorem C16_packright_spacing (ns : Rat) (g : G) (hwf : LayersWF g) (l : Layer) (hl : l ∈ g.layers.toList) :
+    Spaced ns (xsOf (execPackRight ns g) l) (widthsOf (execPackRight ns g) l) := by
+  obtain ⟨h1, h2⟩ := C16_packright_coordinates ns g hwf l hl
+  rw [h1, h2, packRightRaw_eq]
+  exact spaced_shift ns _ _ _ (placeFrom_spaced _ _ _)
+
+/-- the right ends of all non-empty bands coincide (at `−NodeSpacing − leftBound`), and the extent is exact -/
+theorem C16_packright_right_end (ns : Rat) (g : G) (hwf : LayersWF g) (l : Layer) (hl : l ∈ g.layers.toList)
+    (w : Rat) (ws : List Rat) (hws : widthsOf g l = w :: ws) :
+    lastRight (xsOf (execPackRight ns g) l) (w :: ws) = 0 - ns - packLeftBound ns g := by
+  obtain ⟨h1, _⟩ := C16_packright_coordinates ns g hwf l hl
+  rw [h1, lastRight_shift _ _ _ (by simp [packRightRaw_eq, hws]) (by simp [packRightRaw_eq, hws, placeFrom])]
+  unfold packRightRaw
+  rw [hws, packRight_right]
+
+/-- no node is left of 0; and the leftmost node is at 0 as soon as some raw coordinate is ≤ 0
+    (always the case for non-negative widths and spacing: the raw coordinates are `−Σ(w+ns)`) -/
+theorem C16_packright_leftmost (ns : Rat) (g : G) (hwf : LayersWF g) (l : Layer) (hl : l ∈ g.layers.toList) :
+    (∀ x ∈ xsOf (execPackRight ns g) l, 0 ≤ x) ∧
+    (packLeftBound ns g = 0 ∨ ∃ l' ∈ g.layers.toList, ∃ x ∈ xsOf (execPackRight ns g) l', x = 0) := by
+  constructor
+  · intro x hx
+    rw [(C16_packright_coordinates ns g hwf l hl).1] at hx
+    obtain ⟨r, hr, rfl⟩ := List.mem_map.1 hx
+    have : packLeftBound ns g ≤ r := by
+      unfold packLeftBound
+      exact foldl_minRat_le _ _ _ (List.mem_flatMap.2 ⟨l, hl, hr⟩)
+    grind
+  · unfold packLeftBound
+    rcases foldl_minRat_mem (g.layers.toList.flatMap (packRightRaw ns g)) 0 with h | h
+    · exact Or.inl h
+    · obtain ⟨l', hl', hr⟩ := List.mem_flatMap.1 h
+      refine Or.inr ⟨l', hl', _, ?_, rfl⟩
+      rw [(C16_packright_coordinates ns g hwf l' hl').1]
+      refine List.mem_map.2 ⟨_, hr, ?_⟩
+      unfold packLeftBound; grind
+
+/-! ## non-vacuity: a concrete state with two bands, a helper node of width 0 in the second -/
+
+def exG : G :=
+  { nodes := #[{ id := "a", w := 40 }, { id := "b", w := 10 }, { id := "V1", w := 0, virt := true }, { id := "c", w := 25 }],
+    layers := #[{ index := 0, nodes := [0] }, { index := 1, nodes := [2, 1, 3] }] }
+
+example : LayersWF exG := ⟨by decide, by decide⟩
+example : xsOf (execVerticalAlign 5 exG) (exG.layers.toList[1]!) = [0, 5, 20] := by decide +kernel
+example : xsOf (execVerticalAlign 5 exG) (exG.layers.toList[0]!) = [5 / 2] := by decide +kernel
+example : xsOf (execPackRight 5 exG) (exG.layers.toList[1]!) = [0, 5, 20] := by decide +kernel
+example : xsOf (execPackRight 5 exG) (exG.layers.toList[0]!) = [5] := by decide +kernel
 
 end Autog
